@@ -210,6 +210,10 @@ class RealIndex:
     def _cv(b):
         return f'{be(b[:11])},{int.from_bytes(b[11:16], "little")},{int.from_bytes(b[16:24], "little")}'
 
+    def undo_heights(self):
+        return sorted(struct.unpack('>I', k[1:])[0] for k, _v in self.db.utxo_db.iterator(prefix=b'U')
+                      if len(k) == 5)
+
     def dump(self):
         h, u, U = [], [], []
         us = 'none'
